@@ -2,7 +2,7 @@
 //! model, numeric corruption of every field, random bytes), on the machine's ELF files, and on the
 //! live mappings of a target (memory vs. file).
 use crate::{elfgen::{self, Spec}, rng::Rng, target::TargetProc, trace::Trace};
-use minidump_writer::module_reader::{BuildId, ReadFromModule, SoName};
+use minidump_writer::module_reader::{BuildId, ProcessMemory, ProcessReader, ReadFromModule, SoName};
 use serde_json::{json, Value};
 
 fn hexs(b: &[u8]) -> String { b.iter().map(|x| format!("{x:02x}")).collect() }
@@ -26,6 +26,29 @@ fn run_readers(bytes: &[u8]) -> (Value, Value) {
     let (b1, b2) = (bytes.to_vec(), bytes.to_vec());
     let bid = with_deadline(move || std::panic::catch_unwind(|| BuildId::read_from_module(b1.as_slice().into())));
     let so = with_deadline(move || std::panic::catch_unwind(|| SoName::read_from_module(b2.as_slice().into())));
+    let b = match bid { None => json!({"res":"hang"}), Some(Err(_)) => json!({"res":"panic"}), Some(Ok(Err(_))) => json!({"res":"err"}), Some(Ok(Ok(BuildId(v)))) => json!({"res":"ok","hex":hexs(&v)}) };
+    let s = match so { None => json!({"res":"hang"}), Some(Err(_)) => json!({"res":"panic"}), Some(Ok(Err(_))) => json!({"res":"err"}), Some(Ok(Ok(SoName(v)))) => json!({"res":"ok","hex":hexs(v.as_bytes())}) };
+    (b, s)
+}
+
+/// The same readers on the image laid out in this process's own memory (module base = start of a private mapping that
+/// ends where the image ends, with nothing mapped behind it) and read through the process-memory reader.
+fn run_readers_memory(bytes: &[u8]) -> (Value, Value) {
+    const PG: usize = 4096;
+    let len = (bytes.len() + PG - 1) / PG * PG;
+    let base = unsafe {
+        let a = libc::mmap(std::ptr::null_mut(), len + PG, libc::PROT_READ | libc::PROT_WRITE, libc::MAP_PRIVATE | libc::MAP_ANONYMOUS, -1, 0);
+        if a == libc::MAP_FAILED { return (json!({"res":"err"}), json!({"res":"err"})); }
+        libc::munmap((a as usize + len) as *mut libc::c_void, PG);
+        std::ptr::copy_nonoverlapping(bytes.as_ptr(), a as *mut u8, bytes.len());
+        a as usize
+    };
+    let pid = std::process::id() as i32;
+    let bid = with_deadline(move || std::panic::catch_unwind(|| BuildId::read_from_module(ProcessMemory::Process(ProcessReader::new(pid, base)))));
+    let so = with_deadline(move || std::panic::catch_unwind(|| SoName::read_from_module(ProcessMemory::Process(ProcessReader::new(pid, base)))));
+    if bid.is_some() && so.is_some() {
+        unsafe { libc::munmap(base as *mut libc::c_void, len) };      // (a reader still spinning keeps its memory)
+    }
     let b = match bid { None => json!({"res":"hang"}), Some(Err(_)) => json!({"res":"panic"}), Some(Ok(Err(_))) => json!({"res":"err"}), Some(Ok(Ok(BuildId(v)))) => json!({"res":"ok","hex":hexs(&v)}) };
     let s = match so { None => json!({"res":"hang"}), Some(Err(_)) => json!({"res":"panic"}), Some(Ok(Err(_))) => json!({"res":"err"}), Some(Ok(Ok(SoName(v)))) => json!({"res":"ok","hex":hexs(v.as_bytes())}) };
     (b, s)
@@ -55,6 +78,8 @@ pub fn model_case(c: &Value, tr: &mut Trace, tmpdir: &str) {
     spec.text = g("text") != "absent";
     spec.dynamic = g("dyn") != "absent";
     if g("soname") == "absent" { spec.soname = None; }
+    // "long": longer than NAME_MAX, PATH_MAX/8, a page fraction ... - a string table sets no bound
+    if c["solen"].as_str() == Some("long") { spec.soname = Some(format!("lib{}.so.1", "x".repeat(700))); }
     // a shift that makes DT_STRTAB, read as a file offset, fall beyond the 0x3000-byte file / into its zero padding
     spec.vshift = match g("layout").as_str() { "shift_outside" => 0x10_0000, "shift_inside" => 0x2000, _ => 0 };
     let mut b = elfgen::build(&spec);
@@ -72,7 +97,7 @@ pub fn model_case(c: &Value, tr: &mut Trace, tmpdir: &str) {
         for f in ["ph2.p_filesz", "ph2.p_memsz", "sh4.sh_size"] { elfgen::set_field(&mut b, f, 3 * dynent); }
     }
     if g("soname") == "offset_bad" { elfgen::set_field(&mut b, "dyn0.d_val", 5000); }
-    let (bid, so) = run_readers(&b.bytes);
+    let (bid, so) = if c["src"].as_str() == Some("memory") { run_readers_memory(&b.bytes) } else { run_readers(&b.bytes) };
     // the same image through read_from_file
     let path = format!("{tmpdir}/case_{}.elf", std::process::id());
     let _ = std::fs::write(&path, &b.bytes);
@@ -205,6 +230,10 @@ pub fn live_mappings(workdir: &str, tr: &mut Trace) {
     let raw = format!("{workdir}/rawmapped_{}.elf", std::process::id());
     let img2 = elfgen::build(&Spec { soname: Some("librawmapped.so.4".into()), id_ph: (90..110).collect(), ..Default::default() });
     let _ = std::fs::write(&raw, &img2.bytes);
+    // and one whose SONAME is far longer than a file name can be (a string table does not care)
+    let longso = format!("{workdir}/longsoname_{}.elf", std::process::id());
+    let img4 = elfgen::build(&Spec { soname: Some(format!("lib{}.so.9", "y".repeat(900))), id_ph: (170..190).collect(), ..Default::default() });
+    let _ = std::fs::write(&longso, &img4.bytes);
     // and an image without section headers whose FIRST note segment is empty (legal, unusual): the build id is in the second
     let twonotes = format!("{workdir}/twonotes_{}.elf", std::process::id());
     let mut img3 = elfgen::build(&Spec { shdrs: false, soname: None, id_ph: (130..150).collect(), ..Default::default() });
@@ -216,7 +245,8 @@ pub fn live_mappings(workdir: &str, tr: &mut Trace) {
     let _ = std::fs::write(&twonotes, &img3.bytes);
     let Ok(t) = TargetProc::spawn(&json!({"threads": [], "file_maps": [{"path": fixed, "off": 0, "len": img.bytes.len(), "exec": true, "fixed": 0x40_0000},
                                                                        {"path": raw, "off": 0, "len": img2.bytes.len(), "exec": true},
-                                                                       {"path": twonotes, "off": 0, "len": img3.bytes.len(), "exec": true}]}), workdir, "elf") else { return };
+                                                                       {"path": twonotes, "off": 0, "len": img3.bytes.len(), "exec": true},
+                                                                       {"path": longso, "off": 0, "len": img4.bytes.len(), "exec": true}]}), workdir, "elf") else { return };
     let Ok(mut d) = PtraceDumper::new_report_soft_errors(t.pid, std::time::Duration::from_secs(2), Default::default(), error_graph::strategy::DontCare) else { return };
     d.suspend_threads(error_graph::strategy::DontCare);
     for m in d.mappings.clone() {
@@ -250,4 +280,5 @@ pub fn live_mappings(workdir: &str, tr: &mut Trace) {
     let _ = std::fs::remove_file(&fixed);
     let _ = std::fs::remove_file(&raw);
     let _ = std::fs::remove_file(&twonotes);
+    let _ = std::fs::remove_file(&longso);
 }
